@@ -191,6 +191,66 @@ func factsReceive() {
 	sort.Strings(fields)
 	emitList("v1MessageFields", "pkg/store/storepb/prompb/types.pb.go: fields of Sample, Exemplar, Histogram, BucketSpan, TimeSeries", fields)
 
+	// C25: the fields of the capnp Histogram struct (generated accessors) vs. prompb.Histogram
+	cp := parse("pkg/receive/writecapnp/write_request.capnp.go")
+	capnpFields := map[string]bool{}
+	if cp != nil {
+		for _, d := range cp.Decls {
+			fd, ok := d.(*ast.FuncDecl)
+			if !ok || fd.Recv == nil || len(fd.Recv.List) != 1 || text(fd.Recv.List[0].Type) != "Histogram" {
+				continue
+			}
+			n := fd.Name.Name
+			switch {
+			case strings.HasPrefix(n, "Set") && len(n) > 3:
+				capnpFields[n[3:]] = true
+			case strings.HasPrefix(n, "New") && len(n) > 3:
+				capnpFields[n[3:]] = true
+			case n == "Count" || n == "ZeroCount":
+				capnpFields[n] = true
+			}
+		}
+	}
+	var cf []string
+	for k := range capnpFields {
+		cf = append(cf, "Histogram."+k)
+	}
+	sort.Strings(cf)
+	emitList("capnpHistogramFields", "pkg/receive/writecapnp/write_request.capnp.go: fields of the capnp Histogram struct (from its setters / group accessors)", cf)
+	// … and which of them marshalHistogram sets / readHistogram reads
+	mh := fn(parse("pkg/receive/writecapnp/marshal.go"), "", "marshalHistogram")
+	var setCalls []string
+	if mh != nil && mh.Body != nil {
+		seen := map[string]bool{}
+		ast.Inspect(mh.Body, func(n ast.Node) bool {
+			if c, ok := n.(*ast.CallExpr); ok {
+				if sel, ok := c.Fun.(*ast.SelectorExpr); ok {
+					nm := sel.Sel.Name
+					if (strings.HasPrefix(nm, "Set") || strings.HasPrefix(nm, "New")) && len(nm) > 3 && !seen[nm[3:]] {
+						seen[nm[3:]] = true
+						setCalls = append(setCalls, nm[3:])
+					}
+				}
+			}
+			return true
+		})
+	}
+	sort.Strings(setCalls)
+	emitList("capnpMarshalHistogramSets", "pkg/receive/writecapnp/marshal.go marshalHistogram: members it sets", setCalls)
+
+	// C25: how readHistogram reads the zero count
+	rh := fn(parse("pkg/receive/writecapnp/write_request.go"), "Request", "readHistogram")
+	var zc []string
+	if rh != nil && rh.Body != nil {
+		ast.Inspect(rh.Body, func(n ast.Node) bool {
+			if kv, ok := n.(*ast.KeyValueExpr); ok && text(kv.Key) == "ZeroCount" {
+				zc = append(zc, text(kv.Value))
+			}
+			return true
+		})
+	}
+	emitList("capnpReadZeroCount", "pkg/receive/writecapnp/write_request.go readHistogram: the expressions assigned to ZeroCount (int histogram, float histogram)", zc)
+
 	// C24: order of Start / deferred Done / error check in the two HTTP entry points
 	emitList("receiveHTTPGate", "pkg/receive/handler.go receiveHTTP: gate skeleton", gateSkeleton(fn(f, "Handler", "receiveHTTP")))
 	fo := parse("pkg/receive/handler_otlp.go")
